@@ -27,6 +27,7 @@ except Exception:   # noqa
     HAVE_JAX = False
 
 TOL = 1e-9
+_NMOD = 0
 
 
 def layout(c):
@@ -47,8 +48,8 @@ def source(c, mod, fname='f', self_arg=False):
     lines = ['def %s(%s):' % (fname, ', '.join(args))]
     rets = []
     for k, (oname, elems) in enumerate(c['outs']):
-        lines.append('    %s = %s.array([%s])' % ('o%d' % k, mod, ', '.join(ex.to_py(e, names, mod) for e in elems)))
-        rets.append('o%d' % k)
+        lines.append('    %s = %s.array([%s])' % (oname, mod, ', '.join(ex.to_py(e, names, mod) for e in elems)))
+        rets.append(oname)
     lines.append('    return %s' % (', '.join(rets) if len(rets) > 1 else rets[0]))
     return '\n'.join(lines) + '\n'
 
@@ -85,8 +86,16 @@ def build(c, colored):
             src.append('        self.add_output(%r, val=np.ones(%d))' % (sname, size))
     body = source(c, 'jnp', fname='compute_primal', self_arg=True)
     src += ['    ' + ln for ln in body.splitlines()]
-    exec('\n'.join(src) + '\n', ns)
-    comp = ns['JC']()
+    # the jax components read the source of compute_primal (inspect.getsource): the class must live in a file
+    global _NMOD
+    _NMOD += 1
+    modname = 'c34gen_%d_%d' % (os.getpid(), _NMOD)
+    with open(modname + '.py', 'w') as fh:
+        fh.write('import numpy as np\nimport jax.numpy as jnp\nimport openmdao.api as om\n\n' + '\n'.join(src) + '\n')
+    if os.getcwd() not in sys.path:
+        sys.path.insert(0, os.getcwd())
+    import importlib
+    comp = importlib.import_module(modname).JC()
     if colored:
         comp.declare_coloring(wrt='*', method='jax', show_summary=False, show_sparsity=False, min_improve_pct=0.)
     return comp
